@@ -263,7 +263,14 @@ def pool_codec(ctx):
     ok = len(shl) == 1 and len(shr) == 1 and shl[0][1][1] == shr[0][1][1] == "c:16"
     ctx.check(ok, R, "StringRef third-byte shift", "16 both ways", "StringRef::read shifts by %s, StringRef::write by %s" % ([o[1][1] for o in shl], [o[1][1] for o in shr]), fr.loc(), fn=fr.name)
     masks = sorted(o[1][1] for o in bw if o[0] == "BitAnd")
-    ctx.check(masks == ["c:255", "c:65535"], R, "StringRef::write masks", str(masks), "StringRef::write masks with %s (expected 0xffff and 0xff)" % masks, fw.loc(), fn=fw.name)
+    okm = masks == ["c:255", "c:65535"]
+    if not okm and not masks:
+        # the same split by truncating casts: `number as u16` for the low word, `(number >> 16) as u8` for the third byte
+        w16 = [Sw.val(t["args"][1]) for b, t in fw.calls() if (t.get("callee") or "").endswith("write_u16") and has_fact(Sw, b, r"^p3$", True)]
+        w8 = [Sw.val(t["args"][1]) for b, t in fw.calls() if (t.get("callee") or "").endswith("write_u8")]
+        okm = len(w16) == 1 and len(w8) == 1 and re.fullmatch(r"\((.*) as u16\)", w16[0]) is not None and re.fullmatch(r"\(\((.*) Shr c:16\) as u8\)", w8[0]) is not None and \
+            re.fullmatch(r"\((.*) as u16\)", w16[0]).group(1) == re.fullmatch(r"\(\((.*) Shr c:16\) as u8\)", w8[0]).group(1)
+    ctx.check(okm, R, "StringRef::write masks", str(masks), "StringRef::write masks with %s (expected 0xffff and 0xff, or the truncating casts `as u16` / `>> 16 as u8`)" % masks, fw.loc(), fn=fw.name)
     ctx.check(any(o[0] == "BitOr" for o in br) and any(o[0] in ("Eq", "Ne") and o[1][1] == "c:0" for o in br), R, "StringRef::read combines and maps 0 to None", "",
               "StringRef::read does not OR the third byte in / map 0 to None", fr.loc(), fn=fr.name)
     # conditional third byte under the flag on both sides
@@ -291,13 +298,15 @@ def pool_codec(ctx):
         v = S.val(agg[0]["rhs"]["ops"][i])
         ctx.check("BitAnd c:%d) Ne c:0)" % bit in v, R, "builder's long_string_refs comes from the header bit", v, "long_string_refs is computed as %s" % v, f.loc(), fn=f.name)
     esc_r = [o for o in ops if o[0] == "Shl" and o[1][1] == "c:16"]
-    guard = [o for o in ops if o[0] == "Eq" and o[1][1] == "c:0"] and [o for o in ops if o[0] == "Gt" and o[1][1] == "c:0"]
+    guard = [o for o in ops if o[0] == "Eq" and o[1][1] == "c:0"] and [o for o in ops if o[0] in ("Gt", "Ne") and o[1][1] == "c:0"]
     ctx.check(len(esc_r) == 1 and bool(guard), R, "reader's long-string escape", "(refcount << 16) | next word, under length == 0 && refcount > 0",
               "read_from_pool's long-string escape is not `length == 0 && refcount > 0 => (refcount << 16) | next`", f.loc(), fn=f.name)
     g = prog.fn(SP + "StringPool::write_pool")
     Sg = Sym(prog, g)
     gops = binops(g, Sg)
-    ok = len([o for o in gops if o[0] == "Shr" and o[1][1] == "c:16"]) == 1 and len([o for o in gops if o[0] == "BitAnd" and o[1][1] == "c:65535"]) == 1 and \
+    wvals = [Sg.val(t["args"][1]) for b, t in g.calls() if (t.get("callee") or "").endswith("write_u16")]
+    low_cast = [v for v in wvals if re.fullmatch(r"\(\(std::vec::Vec::<T, A>::len\(.*CodePage::encode.*\) as u32\) as u16\)", v)]
+    ok = len([o for o in gops if o[0] == "Shr" and o[1][1] == "c:16"]) == 1 and (len([o for o in gops if o[0] == "BitAnd" and o[1][1] == "c:65535"]) == 1 or len(low_cast) == 1) and \
         len([o for o in gops if (o[0] == "Gt" and "65535" in o[1][1]) or (o[0] == "Lt" and "65535" in o[1][0]) or (o[0] == "Ge" and "65536" in o[1][1]) or (o[0] == "Le" and "65536" in o[1][0]) or
              (o[0] in ("Ne", "Gt") and "Shr c:16" in o[1][0] and o[1][1] == "c:0") or (o[0] == "Ne" and "Shr c:16" in o[1][1] and o[1][0] == "c:0")]) == 1
     ctx.check(ok, R, "writer's long-string escape", "len > 0xffff => 0, len >> 16; then len & 0xffff", "write_pool's long-string escape does not mirror the reader's split (>> 16 / & 0xffff / > 0xffff)", g.loc(), fn=g.name)
@@ -337,7 +346,7 @@ def pool_codec(ctx):
               "write_pool has %d write sites, expected 5 (header, escape 0, escape high, low, refcount)" % len(ws), g.loc(), fn=g.name)
     if len(ws) == 5:
         dom = cfg.dominators(g)
-        lo = [w for w in ws if "BitAnd c:65535" in w[1][1]]
+        lo = [w for w in ws if "BitAnd c:65535" in w[1][1] or re.fullmatch(r"\(\(std::vec::Vec::<T, A>::len\(.*CodePage::encode.*\) as u32\) as u16\)", w[1][1])]
         rc = [w for w in ws if re.search(r"@Some\.0\.1\)?$", w[1][1]) or w[1][1].endswith(".1")]
         ok = len(lo) == 1 and len(rc) == 1 and lo[0][0] in dom[rc[0][0]]
         ctx.check(ok, R, "low length word, then refcount", "", "write_pool does not write (len & 0xffff) followed by the refcount: low %s refcount %s" % (
@@ -363,8 +372,9 @@ def pool_codec(ctx):
     ucg, ucd = unit_calls(prog, g, Sg), unit_calls(prog, d, Sd)
     enc_p = [args for b, n, args, t, L in ucg if n.endswith("CodePage::encode")]
     enc_d = [args for b, n, args, t, L in ucd if n.endswith("CodePage::encode")]
-    it_p = [args for b, n, args, t, L in ucg if n.endswith("<impl [T]>::iter") and L is None]
-    it_d = [args for b, n, args, t, L in ucd if n.endswith("<impl [T]>::iter") and L is None]
+    ITER = ("<impl [T]>::iter", "IntoIterator>::into_iter", "IntoIterator::into_iter")
+    it_p = [args for b, n, args, t, L in ucg if n.endswith(ITER) and L is None and "p1.strings" in args[0] and "iter(" not in args[0]]
+    it_d = [args for b, n, args, t, L in ucd if n.endswith(ITER) and L is None and "p1.strings" in args[0] and "iter(" not in args[0]]
     ok = len(enc_p) == 1 and len(enc_d) == 1 and nz(enc_p[0][0]) == nz(enc_d[0][0]) == "p1.codepage" and len(it_p) == 1 and len(it_d) == 1 and \
         "p1.strings" in it_p[0][0] and "p1.strings" in it_d[0][0]
     ctx.check(ok, R2, "same strings, same code page", "", "write_pool and write_data do not iterate self.strings / encode with self.codepage alike: encode %s vs %s, iter %s vs %s" % (enc_p, enc_d, it_p, it_d), g.loc(), fn=g.name)
